@@ -9,13 +9,69 @@ E1_NOTE = ('Bounded: holds for every value of the symbolic data inputs within th
            'lowering of the real headers, tools/irparse.py + tools/ir2c.py (validated on every run against a native g++ build on concrete vectors), '
            'the runtime model rt/rt.h (allocation never fails, EH model, single modelled thread), shadow <bits/atomic_wait.h>, CBMC 6.11 + its SAT back end.')
 
+E2_NOTE = ('Bounded: holds for every sequentially consistent interleaving (at instruction granularity) of the stated scenarios - 2..3 modelled threads, one or two '
+           'library operations per thread, loop / CAS-retry / recursion bounds whose exceedance is itself queried and reported as "bound insufficient". Trusted base: clang-14 -O1 '
+           'lowering of the real headers, tools/irparse.py + tools/irdag.py (guarded symbolic execution of the IR into an event DAG; value sets of shared cells computed by a fixpoint) + '
+           'tools/mm.py (SC encoding), shadow <bits/atomic_wait.h> (no spurious wake-ups), z3. Counterexamples are replayed with real pthreads on the natively compiled, '
+           'schedule-instrumented IR before they are reported.')
+
+
+def e1(text, ref, technique):
+    return dict(technique=technique, text=text, design_ref=ref, note=E1_NOTE, engine='E1')
+
+
+def e2(text, ref, technique, engine='E2'):
+    return dict(technique=technique, text=text, design_ref=ref, note=E2_NOTE if engine == 'E2' else E2_NOTE + ' Sequential units: ' + E1_NOTE, engine=engine)
+
+
+T_E1 = 'bounded symbolic model checking of the real code: clang LLVM IR -> C (tools/ir2c.py) -> CBMC/SAT, one query per skeleton vector (history / script / configuration) with symbolic data, differential against a reference model in the harness'
+T_E2 = 'SMT-based bounded model checking of schedules: clang LLVM IR -> guarded event DAG (tools/irdag.py) -> sequential-consistency encoding with one clock per event (tools/mm.py) -> z3; assertion, lifetime, deadlock and bound queries per scenario'
+
 CLAIMED = {
-    'C10': dict(
-        technique='bounded symbolic model checking of the real limited_queue code: clang LLVM IR -> C (ir2c) -> CBMC/SAT, one query per operation history with symbolic values, differential against a reference FIFO model',
-        text='For every history over {push(v), pop, unblock_push(e), unblock_pop(e)} up to the stated length and limits, and for all pushed values (solver-decided), '
-             'the real limited_queue<int> agrees with a reference model on the state of every push/pop future after every step, on size()/empty(), '
-             'on which waiter an unblock hits and with which exception, and on cancellation + allocation balance at destruction. Counterexamples are replayed on a g++ ASan/UBSan build before being reported.',
-        design_ref='DESIGN.md 2, 5/C10', note=E1_NOTE),
+    'C01': e2('For every SC interleaving of 2 (thorough: 3) threads that call the same promise object with value / drop / exception / destruction (and a polling reader), the solver shows: at most one call '
+              'reports success, the future carries exactly the winner\'s payload (values symbolic, pairwise distinct), a resolved result never changes, the final promise destruction resolves an '
+              'unresolved future to no-value, has_value() agrees; library asserts, lifetime and deadlock queries included.', 'DESIGN.md 3, 5/C01', T_E2),
+    'C02': e2('Resolver thread (value / drop / exception / promise destruction) against waiter threads of every kind (callback awaiter, blocking wait()/sync(), coroutine protocol with a frame that dies on resume, '
+              'has_value(), poller): every waiter is released exactly once or told "already resolved" (never both), never before the result is set, it observes the final result, nobody stays blocked '
+              '(deadlock query), nothing touches a waiter after its release (lifetime query).', 'DESIGN.md 3, 5/C02', T_E2),
+    'C07': e2('Contenders of every flavour (try_lock, blocking lock().wait(), coroutine protocol) and release flavour (ownership destructor, release() discarded, release()+clear()) on one mutex, owner releasing while a '
+              'request is in flight and free-mutex contention: no two parties in the critical section, each request granted exactly once, a waiter told "not suspended" is never resumed as well, suspended '
+              'waiters resumed exactly once, library asserts, lifetime of the awaiter/frame, no thread blocked forever, mutex lockable again.', 'DESIGN.md 3, 5/C07', T_E2),
+    'C08': e2('Sequential unit (E1): for every N<=3 (thorough 4) queued coroutines and every release style of owner and waiters, grant order = arrival order, every request granted, try_lock fails while held and succeeds '
+              'afterwards. Concurrent units (E2): the C07 scenarios (orphaned lock / lost request / deadlock queries) and, in the thorough tier, owner + two requesters whose arrival order is fixed by a hand-shake: '
+              'grant order must equal arrival order in every interleaving.', 'DESIGN.md 5/C08', T_E1 + ' ; ' + T_E2, engine='E1+E2'),
+    'C09': e1('Every history over {push(v), pop, unblock_pop(e)} up to the stated length, then destruction, for queue<int>, queue<void>, a single_item_queue consumer variant and a real consumer coroutine: '
+              'the real queue agrees with a FIFO-pair reference model after every step (which pop completes, with which value / exception, arrival order of waiters, size()/empty(), never both internal '
+              'queues non-empty, cancellation at destruction, allocation balance); values symbolic.', 'DESIGN.md 5/C09', T_E1),
+    'C10': e1('For every history over {push(v), pop, unblock_push(e), unblock_pop(e)} up to the stated length and limits, and for all pushed values (solver-decided), the real limited_queue<int> agrees with a reference '
+              'model on the state of every push/pop future after every step, on size()/empty(), on which waiter an unblock hits and with which exception, and on cancellation + allocation balance at destruction.',
+              'DESIGN.md 2, 5/C10', T_E1),
+    'C12': e1('Manual-mode histories over sleep_until/schedule, cancel(id[,e]), remove(id), get_expired(now) with time points enumerated up to weak order (ties included) and identifiers canonical, against a per-sleep '
+              'reference model; the interval() generator with a stop token (request_stop while sleeping / parked / before start; double-lock of the scheduler mutex is a failure); start(awaitable) under a virtual '
+              'clock with up to 3 scripted sleepers (never early, on time when idle, in deadline order, cancels hit exactly their target); destruction cancels pending sleeps.', 'DESIGN.md 5/C12', T_E1),
+    'C13': e1('Scripted generator bodies (yield lvalue/temporary, await ready / pending future, throw, return; up to 6 entries) x sequences of 11 consumer access styles (next()/value(), iterators, range-for, call -> future, '
+              'co_await of either) for generator<int> and generator<int,int>: observed values, argument echo, exception position, single end indication then done(), RAII probes and allocation balance when '
+              'destroyed unstarted / parked / finished; payloads, awaited results and arguments symbolic.', 'DESIGN.md 5/C13', T_E1),
+    'C14': e1('0..3 (thorough 4) scripted source generators (yield, await pending, throw, return, infinite) x 6 consumer access styles, with and without arguments: per-source order and exactly-once delivery, payloads, '
+              'end / exception only when nothing is left, exception must be one a source threw, argument routing to the source returned last, probes and allocation balance after destruction.', 'DESIGN.md 5/C14', T_E1),
+    'C15': e1('Histories of up to 3 (thorough 4) events over <=3 listeners (re-awaiting coroutines, connect() callbacks returning true/false, listener on a dead emitter), collector calls by value / rvalue / lvalue / void, '
+              'copying and dropping signal / collector handles: each listener log equals the model (every emission while waiting exactly once, right value), cancellation when the last handle goes, '
+              'immediate failure on a disconnected emitter, allocation balance. Sequential half only (listener subscribing on another thread is outside).', 'DESIGN.md 5/C15', T_E1),
+    'C16': e1('Histories over publish one / batch, subscribe recent / at position / by copy, next() polled / blocking-when-due / awaited by a coroutine, kick, leave, close for <=2 subscribers, three subscription modes and '
+              'queue configurations unlimited,(1,1),(2,1),(3,2),(5,5) against a reference stream + cursors: all_values contiguous, duplicate-free and in order until a justified first end indication; skipping modes '
+              'strictly forward, skip_to_recent newest; close / destruction wakes parked subscribers; copies continue from the original\'s position; values symbolic.', 'DESIGN.md 5/C16', T_E1),
+    'C17': e1('Histories of copy / drop / await (callback awaiter keeping or dropping its own handle, coroutine) / resolve (value, exception, dropped promise) for seven ways of constructing a shared_future<counted>, incl. '
+              'default-construct + get_promise(): same result for all copies, each awaiter resumed once after resolution, counted value constructed and destroyed once, state freed exactly once and only after '
+              'resolution (allocation accounting + use-after-free / double-free obligations). Sequential half only.', 'DESIGN.md 5/C17', T_E1),
+    'C18': e1('callback_await / callback_await_alloc (5 allocators), make_promise (3 storages), discard, call_fn_future_awaiter and 7 future_conv converter shapes x outcome (value, exception, drop, converter throws) x timing '
+              '(resolved before / after registration on the same thread) x mode: completion runs exactly once and not before the outcome exists, outcome matches, converter result or exception reaches the outer '
+              'future, helper block released exactly once. Concurrent resolution on another thread is outside.', 'DESIGN.md 5/C18', T_E1),
+    'C19': e1('Per storage policy (default, reusable, reusable_mtsafe, stack, placement, reusable_buffer, promise_extra_storage over two bases) real coroutines of two frame sizes in creation/completion programs of <=3 frames '
+              '(overlapping lifetimes for default and mtsafe): block valid for the requested size, never handed out twice while live, released exactly once with its size, canaries intact, no operator new '
+              'for a size class served before, stack storage only when it fits, extra object constructed once / usable at once / destroyed once. Two-thread use of reusable_storage_mtsafe is outside.', 'DESIGN.md 5/C19', T_E1),
+    'C20': e1('Every named operation (create / resolve / await by coroutine, blocking thread, callback / destroy a future-promise pair of int, void, small struct; lock, contend, hand over, release the mutex; build, merge, move, '
+              'pop, clear a suspend point with <=3 handles; step a synchronous generator) runs inside an allocation region from states produced by short prefixes: operator new calls in the region == coroutine frames '
+              'the harness created there (0 under placement_alloc). Excluded by statement: ready-queue deque growth every 64 pushes, >3 handles per suspend point.', 'DESIGN.md 5/C20', T_E1),
 }
 
 def main():
@@ -25,10 +81,10 @@ def main():
         c = CLAIMED[pid]
         checks.append({
             'property_id': pid,
-            'quick_cmd': 'python3 tools/check.py %s --tier quick' % pid,
-            'thorough_cmd': 'python3 tools/check.py %s --tier thorough' % pid,
+            'quick_cmd': 'python3-vt tools/check.py %s --tier quick' % pid,
+            'thorough_cmd': 'python3-vt tools/check.py %s --tier thorough' % pid,
             'evidence_file': 'evidence/%s.json' % pid,
-            'replay_cmd_template': 'python3 tools/check.py %s --replay {path}' % pid,
+            'replay_cmd_template': 'python3-vt tools/check.py %s --replay {path}' % pid,
             'engine': c.get('engine', 'E1'),
             'level_claimed': {'category': 'model_checking', 'text': c['text'], 'design_ref': c['design_ref']},
             'level_note': c['note'],
@@ -38,7 +94,7 @@ def main():
           for p in ALL if p not in CLAIMED]
     m = {
         'version': 1,
-        'setup_cmd': 'python3 -m compileall -q tools harness && python3 tools/selftest.py',
+        'setup_cmd': 'python3-vt -m compileall -q tools harness && python3-vt tools/selftest.py',
         'hooks': {'guard': 'COCLS_VERIF', 'enable': 'no source hooks: instrumentation happens on the LLVM IR and through shadow standard-library headers under /verif/shadow; nothing in /repo is guarded',
                   'baseline_off_cmd': 'cmake -G Ninja -S /repo -B /repo/_build && cmake --build /repo/_build && ctest --test-dir /repo/_build -j8 --timeout 900',
                   'source_commits': [], 'add_only': True},
